@@ -70,7 +70,13 @@ func TestVerifGenC18(t *testing.T) {
 
 		return
 	}
-	if err := os.WriteFile(p, []byte(b.String()), 0o600); err != nil {
+	// appended: TestVerifGenC18Registry (in-package, same run) writes to the same file
+	f, err := os.OpenFile(p, os.O_APPEND|os.O_CREATE|os.O_WRONLY, 0o600)
+	if err != nil {
+		t.Fatal(err)
+	}
+	defer f.Close() //nolint:errcheck
+	if _, err := f.WriteString(b.String()); err != nil {
 		t.Fatal(err)
 	}
 }
